@@ -914,6 +914,57 @@ package common
 //@     invariant balances == st_bals(state) && biter_reg == balances && fnid(balIterNext) == n_biter && i == biter_pos && 0 <= i && i <= bal_len(balances) && len(balancesOut) == i && n_set_bal == old(n_set_bal) && length == bal_len(balances) && len(deltas.Rewards) == length && len(deltas.Penalties) == length
 //@     invariant forall k :: {balancesOut[k]} 0 <= k && k < i ==> balancesOut[k] == (let b := (bal_at(n_set_bal, st_bals(state), k) + deltas.Rewards[k]) % 18446744073709551616 in ite(b >= deltas.Penalties[k], b - deltas.Penalties[k], 0))
 
+// balance writes: point updates of the versioned view
+//@ func (b BalancesRegistry) SetBalance(index, bal) err
+//@   trusted
+//@   assigns ghost(n_set_bal)
+//@   ensures n_set_bal == old(n_set_bal) + 1
+//@   ensures err == nil ==> bal_at(n_set_bal, b, index) == bal
+//@   ensures err != nil ==> bal_at(n_set_bal, b, index) == bal_at(old(n_set_bal), b, index)
+//@   ensures forall k :: {bal_at(n_set_bal, b, k)} k != index ==> bal_at(n_set_bal, b, k) == bal_at(old(n_set_bal), b, k)
+// increase_balance / decrease_balance (the latter clips at zero)
+//@ func IncreaseBalance(v, index, delta) err
+//@   property C01 C02
+//@   requires v != nil
+//@   assigns ghost(n_set_bal)
+//@   ensures done: err == nil ==> n_set_bal == old(n_set_bal) + 1 && bal_at(n_set_bal, v, index) == (bal_at(old(n_set_bal), v, index) + delta) % 18446744073709551616
+//@   ensures others: forall k :: {bal_at(n_set_bal, v, k)} k != index ==> bal_at(n_set_bal, v, k) == bal_at(old(n_set_bal), v, k)
+//@   ensures n_set_bal >= old(n_set_bal) && n_set_bal <= old(n_set_bal) + 1
+//@ func DecreaseBalance(v, index, delta) err
+//@   property C01 C02
+//@   requires v != nil
+//@   assigns ghost(n_set_bal)
+//@   ensures done: err == nil ==> n_set_bal == old(n_set_bal) + 1 && bal_at(n_set_bal, v, index) == ite(bal_at(old(n_set_bal), v, index) >= delta, bal_at(old(n_set_bal), v, index) - delta, 0)
+//@   ensures others: forall k :: {bal_at(n_set_bal, v, k)} k != index ==> bal_at(n_set_bal, v, k) == bal_at(old(n_set_bal), v, k)
+//@   ensures n_set_bal >= old(n_set_bal) && n_set_bal <= old(n_set_bal) + 1
+// slashings vector (assumed view model): the sum of its entries
+//@ sort SlashI = Slashings
+//@ ufun st_slashings_err(StateI) bool
+//@ ufun st_slashings(StateI) SlashI
+//@ ufun slash_total_err(SlashI) bool
+//@ ufun slash_total(SlashI) int
+//@ func (s BeaconState) Slashings() (r, err)
+//@   trusted
+//@   opt noalloc
+//@   ensures (err != nil) == st_slashings_err(s)
+//@   ensures err == nil ==> r == st_slashings(s) && r != nil
+//@ func (sl Slashings) Total() (sum, err)
+//@   trusted
+//@   opt noalloc
+//@   ensures (err != nil) == slash_total_err(sl)
+//@   ensures err == nil ==> sum == slash_total(sl)
+// fork parameters through the state interface (each fork's own method is verified in its package)
+//@ sort FSetP = *ForkSettings
+//@ ufun st_fs(StateI) FSetP
+//@ func (s BeaconState) ForkSettings(spec) r
+//@   trusted
+//@   opt noalloc
+//@   ensures r == st_fs(s) && r != nil
+// effective balance of the validators act[0..k) (wrapping sum)
+//@ sort FlatsC = []FlatValidator
+//@ define wadd64c(a int, b int) int = ite(a + b >= 18446744073709551616, a + b - 18446744073709551616, a + b)
+//@ defrec eb_sum(fl FlatsC, act VIdxsT, k int) int = ite(k <= 0, 0, wadd64c(eb_sum(fl, act, k - 1), fl[act[k - 1]].EffectiveBalance))
+
 // effective-balance writes: point updates of a versioned view (the unversioned v_eb is the snapshot the
 // sampling contracts read)
 //@ ghost n_set_eb int
@@ -1114,10 +1165,6 @@ package common
 //@   trusted
 //@   assigns ghost(n_eth1_reset)
 //@   ensures n_eth1_reset == old(n_eth1_reset) + 1
-//@ func (s BeaconState) Slashings() (r, err)
-//@   trusted
-//@   opt noalloc
-//@   ensures err == nil ==> r != nil
 //@ func (v Slashings) ResetSlashings(epoch) err
 //@   trusted
 //@   assigns ghost(n_slash_reset), ghost(last_slash_reset)
@@ -1212,6 +1259,7 @@ package common
 //@   ensures c03_forward: err == nil ==> !st_slot_err(state) && st_slot(state) < slot
 //@   assigns ghost(n_set_score)
 //@   assigns ghost(n_biter), ghost(biter_pos), ghost(biter_reg), ghost(n_set_eb)
+//@   assigns ghost(n_set_bal)
 //@   assigns ghost(n_eth1_reset), ghost(n_slash_reset), ghost(last_slash_reset), ghost(n_set_mix), ghost(last_set_mix_epoch), ghost(last_set_mix), ghost(n_hist_update)
 //@   assigns ghost(n_set_lhdr), ghost(set_lhdr)
 //@   assigns ghost(n_set_prevjust), ghost(set_prevjust), ghost(n_set_curjust), ghost(set_curjust), ghost(n_set_fin), ghost(set_fin), ghost(n_set_jbits), ghost(set_jbits)
@@ -1235,6 +1283,7 @@ package common
 //@   assigns ghost(n_set_score)
 //@   assigns ghost(n_biter), ghost(biter_pos), ghost(biter_reg), ghost(n_set_eb)
 //@   assigns ghost(n_set_wcred), ghost(set_wcred_v), ghost(set_wcred_val)
+//@   assigns ghost(n_set_bal)
 //@   assigns ghost(n_eth1_reset), ghost(n_slash_reset), ghost(last_slash_reset), ghost(n_set_mix), ghost(last_set_mix_epoch), ghost(last_set_mix), ghost(n_hist_update)
 //@   assigns ghost(n_set_mix), ghost(last_set_mix_epoch), ghost(last_set_mix)
 //@   assigns ghost(n_set_lhdr), ghost(set_lhdr)
@@ -1260,6 +1309,7 @@ package common
 //@   ensures c03_reads: validateResult && err == nil ==> !st_forkdata_err(state) && !st_gvr_err(state) && !epc_proposer_err(epc, old(benv.Slot))
 //@   ensures c03_signature: old(benv != nil && epc != nil && epc.ValidatorPubkeyCache != nil && (forall r PcPtr :: {pctrig(r)} pctrig(r) && alloc(r) ==> pc_local(r.pub2idx, r.idx2pub, r.trustedParentCount) && pc_chain(r.parent, r, r.trustedParentCount, r.parent.trustedParentCount, len(r.parent.idx2pub))) && (forall r PcPtr :: {held(r.rwLock)} held(r.rwLock) == 0)) && validateResult && err == nil ==> (exists pk Pub48T :: block_sig_ok(old(benv.ProposerIndex), epc_proposer(epc, old(benv.Slot)), old(benv.ForkDigest), old(benv.BlockRoot), old(benv.Signature), pk, DOMAIN_BEACON_PROPOSER, st_forkdata(state).CurrentVersion, st_gvr(state)))
 //@   assigns ghost(n_set_wcred), ghost(set_wcred_v), ghost(set_wcred_val)
+//@   assigns ghost(n_set_bal)
 //@   assigns ghost(n_set_mix), ghost(last_set_mix_epoch), ghost(last_set_mix)
 //@   assigns ghost(n_set_lhdr), ghost(set_lhdr)
 //@   assigns ghost(n_viter), ghost(viter_pos), ghost(viter_reg), ghost(n_val_write), ghost(n_set_exit), ghost(set_exit_v), ghost(set_exit_val), ghost(n_set_wd), ghost(set_wd_v), ghost(set_wd_val)
